@@ -240,6 +240,7 @@ pub fn site_name(s: u32) -> &'static str {
         62 => "raw.cas",
         63 => "raw.cas_weak",
         64 => "raw.fetch_or",
+        70 => "auto",
         100 => "user",
         101 => "exit",
         102 => "block",
